@@ -28,6 +28,7 @@ SECRETS = ["", "a", "b", "A", "a ", "aa", "é", "é", "a\x00", {"$": "bigstr", 
 UNENCODABLE = ["hunter2\udcff", "\udcff", "a\ud800"]
 FORMATS = ["json", "yaml", "xml", "bson", "pickle"]
 ROUTES = ["attr", "ctor", "default", "default-callable", "digest-default", "load_tree", "document", "document-yaml", "document-xml", "list-assign", "list-append",
+          "dict-default-item", "dict-factory-default-update", "list-default-append", "list-factory-default-iadd", "include-overrides-stored",
           "list-assign-dup", "tuple-assign-dup", "list-default-dup", "dict-assign-dup", "dict-item", "dict-setdefault", "dict-update", "dict-ior", "dict-assign", "list-insert", "list-setitem", "list-setslice", "list-extend", "list-iadd",
           "list-from-str-proxy", "list-extend-str-proxy", "list-iadd-any-proxy", "sub-document-xml"]
 
@@ -63,6 +64,12 @@ def _world(alg, default=None, callable_default=False):
     schema.l = cc.ListField(cc.ChallengeField(alg))
     schema.d = cc.DictField(key_field=cc.StringField(), value_field=cc.ChallengeField(alg))
     schema.other = cc.StringField(default="o")
+    # containers left at their (empty) declared defaults, literal and produced by a factory
+    schema.d0 = cc.DictField(key_field=cc.StringField(), value_field=cc.ChallengeField(alg), default={})
+    schema.d1 = cc.DictField(key_field=cc.StringField(), value_field=cc.ChallengeField(alg), default=dict)
+    schema.l0 = cc.ListField(cc.ChallengeField(alg), default=[])
+    schema.l1 = cc.ListField(cc.ChallengeField(alg), default=list)
+    schema.include = cc.IncludeField()
     return schema
 
 
@@ -106,6 +113,29 @@ def _place(schema, route, p, alg):
             cfg.l = []
             cfg.l += oc.anys
         return cfg, lambda c: c.l[0]
+    if route == "dict-default-item":
+        cfg = schema(); cfg.d0["k"] = p
+        return cfg, lambda c: c.d0["k"]
+    if route == "dict-factory-default-update":
+        cfg = schema(); cfg.d1.update({"k": p})
+        return cfg, lambda c: c.d1["k"]
+    if route == "list-default-append":
+        cfg = schema(); cfg.l0.append(p)
+        return cfg, lambda c: c.l0[0]
+    if route == "list-factory-default-iadd":
+        cfg = schema(); cfg.l1 += [p]
+        return cfg, lambda c: c.l1[0]
+    if route == "include-overrides-stored":
+        # the main document still holds the stored pair of an *older* secret; the included file names the new one in clear
+        import json, os
+        old = schema(); old.pw = "the-older-secret"
+        stored = old.to_tree()["pw"]
+        inc = os.path.abspath("c09-include.json")
+        with open(inc, "w") as fh:
+            json.dump({"pw": p}, fh)
+        cfg = schema(); cfg.loads(json.dumps({"pw": stored, "include": inc}), "json")
+        cfg.include = None         # (later renderings of this configuration must not pull the file in again)
+        return cfg, lambda c: c.pw
     if route == "list-assign":
         cfg = schema(); cfg.l = [p]
         return cfg, lambda c: c.l[0]
@@ -244,7 +274,7 @@ def _pairs(job, ctx):
     secrets = [V.dec(s) for s in SECRETS]
     only = job.get("only")
     for pi, p in enumerate(secrets):
-        if (route.startswith("document") or route.startswith("sub-document") or route.endswith("proxy") or route in ("default", "default-callable", "load_tree")) and not isinstance(p, str):  # trees and defaults are text
+        if (route.startswith("document") or route.startswith("sub-document") or route.endswith("proxy") or route in ("default", "default-callable", "load_tree", "include-overrides-stored")) and not isinstance(p, str):  # trees and defaults are text
             ctx.skipped += 1
             continue
         if route.endswith("xml") and isinstance(p, str) and ("\x00" in p or not p.strip(" ") == p and False):
